@@ -358,6 +358,8 @@ class RelativeOperand(Operand):
         self.value = value if value else Value.create_from_str(operand_string, instruction)
 
     def translate(self):
+        if not self.value.is_address():
+            raise OperandTypeError("[{}] is not a label that can be branched to".format(self.operand_string))
         return CodePackage(
             op_code=NumericValue(self.instruction.mode.rel),
             additional=self.value if self.value.is_address() else NoneValue(),
